@@ -68,7 +68,7 @@ PROPS = {
  "C07": {
   "module": "Zog.Props.C07",
   "theorems": [P + "C07.schemas_carry_nothing_over"] + [P + "C07." + t for t in ["constructors_complete", "reinit_independent_of_dirt", "reinit_is_fresh", "skips_first", "acquire_ownedAcc", "acquireMany_ownedAcc", "step_owned", "ownership_invariant"]],
-  "streams": [st("pool", 800, 40000)],
+  "streams": [st("pool", 800, 40000), st("alias", 1500, 60000)],
   "trusted_base": ["regenerated (go/ast): Gen.ctorAssigns / Gen.typeFields (which fields every pooled constructor assigns), Gen.collectMapSkipsFirst",
                    "modelled, not verified: lean/Zog/Pool.lean (reinit of recycled records; issue-object identities over call/collect histories)",
                    "assumed: sync.Pool hands an object to one caller at a time; the `Test` field of SchemaCtx is written by every test loop before it is read, `HasCaught` is never read (dead-before-written exemptions)"],
@@ -123,8 +123,8 @@ PROPS = {
  },
  "C16": {
   "module": "Zog.Props.C16",
-  "theorems": READONLY + [P + "C16." + t for t in ["clone_copies", "heap_refines_pure", "pure_step_frame", "heap_step_frame", "pick_fields", "omit_fields", "union_fields", "merge_tests", "union_assoc", "merge3_tests"]],
-  "streams": [st("helpers", 1500, 100000)],
+  "theorems": READONLY + [P + "C16." + t for t in ["clone_copies", "helpers_write_no_operand", "heap_refines_pure", "pure_step_frame", "heap_step_frame", "pick_fields", "omit_fields", "union_fields", "merge_tests", "union_assoc", "merge3_tests"]],
+  "streams": [st("helpers", 1500, 100000), st("conc", 8000, 300000)],
   "trusted_base": ["modelled, not verified: lean/Zog/Helpers.lean mirrors struct_helpers.go (cloneShallow/Pick/Omit/Extend/Merge) and StructSchema.Test/PostTransform with Go slice semantics (in-place append while len < cap, arbitrary growth policy)",
                    "regenerated (go/ast): Gen.cloneCopies — cloneShallow gives the derived schema its own tests/postTransforms arrays",
                    "the model carries one appended list per object; Tests and PostTransforms share the code shape and are both exercised by the stream"],
